@@ -496,13 +496,15 @@ def parsePelFromBmcID(path: str, config: Config) -> None:
                     if str(ph.obmcLogID) == config.bmcID:
                         stream = DataStream(data, byte_order='big', is_signed=False)
                         _, json_string = parsePEL(stream, config, False)
+                        # A file that only starts like a PEL with this id
+                        # is not a match: keep looking
                         if json_string:
                             if not config.hex:
                                 print(json_string)
                             else:
                                 printPELInHexFormat(data)
-                        foundID = True
-                        break
+                            foundID = True
+                            break
             except Exception as e:
                 print(f"Exception: Could not read PEL file {file}: {e}", file=sys.stderr)
         # Only process top level directory
